@@ -8,7 +8,8 @@ RULE = ("for every struct/union of generated schemas compiled with the C++ full 
         "of canonical encodings, extensions, control words (counters/flags/discriminators/enums/sizers) set to boundary "
         "values, garbage padding, bit flips, splices, random bytes and the empty input, in both byte orders, are copied "
         "into an exact-size heap block and decoded, into fresh objects and into one long-lived object per type that still "
-        "holds whatever earlier (accepted or refused) decodes left in it. "
+        "holds whatever earlier (accepted or refused) decodes left in it; through decode(ptr, size) and, for canonical, "
+        "extended and truncated inputs, also through the std::vector overload. "
         "Monitors: any sanitizer report; a replaced operator new that refuses and logs requests above "
         "(64+max sizeof of reachable composite types)*n+4096 bytes during decode; decode==true requires get_byte_size()==n==len(encode<E>()), agreement of the input with its own "
         "re-encoding on every non-padding byte, and acceptance by the lenient reference decoder. distinct = "
@@ -107,9 +108,12 @@ def run_shard(spec):
                 data, spans = w.encode(n, v, e)
                 add(ti, n, sel, e, 0, 'canonical', '', data, v)
                 add(ti, n, sel, e, 4, 'canonical+reused-object', '', data, v)
+                add(ti, n, sel, e, 16, 'canonical+vector-entry', '', data, v)
                 for fam, desc, mut in corrupt.mutations(data, spans, e, rng, other=prev, flips=10, doubles=3,
                                                         max_prefix=160):
                     add(ti, n, sel, e, 0, fam, desc, mut, v)
+                    if fam in ('extend', 'padding-garbage') or (fam == 'prefix' and len(mut) % 7 == 0):
+                        add(ti, n, sel, e, 16, fam + '+vector-entry', desc, mut, v)
                     if fam.startswith('control') or fam in ('splice', 'random'):
                         add(ti, n, sel, e, 4, fam + '+reused-object', desc, mut, v)
                 add(ti, n, sel, e, 4, 'canonical+reused-object', 'after-corruptions', data, v)
